@@ -181,11 +181,23 @@ CHECKS["C14"] = {
             "(iterator adapters) was outside both verifiers; its defect S7 was established by native replay and repaired with a loop Verus can take.",
 }
 
+CHECKS["C07"] = {
+    "text": "Proof (Verus, unbounded), dispatch level: a ghost effect log is threaded mechanically (T17) through the real RaftDataHandler::{apply_log_to_state_machine (leader), "
+            "do_send_log (follower), load_log (start-up replay)} and their callers in raftapply.rs (async_apply_request_to_state_machine, apply_request_to_state_machine, the "
+            "ApplyBatchRequest arm of Handler<StateApplyRequest> with its loop over a batch of ANY length, LogRecordLoaderInstance::load). Each path's postcondition says the "
+            "messages handed to the component actors are exactly effs(request) — ONE spec function for all three paths, every field carried unchanged, nothing sent twice, "
+            "nothing dropped, nothing else sent (the leader and the follower batch add only the last-applied bookkeeping message). A spec-level lemma (lemma_paths_agree) "
+            "gives: for every committed sequence, whatever path applied each entry, every component received the same messages in the same order.",
+    "note": "What a component does with a message is NOT part of this proof: the component handlers are assumed deterministic in (state, message), FIFO per mailbox, and "
+            "indifferent to send vs do_send (A-ACTOR, A-FLAVOUR); actix Addr/Message, the component request types and the JSON / protobuf decoders are opaque glue "
+            "(units/raftdata/glue.rs). Divergence noted, not alarmed: an undecodable ConfigFullValue entry aborts the rest of a follower batch but only itself on the leader "
+            "(such entries are only produced by the node itself). The log-manager loop that feeds records to the loader is not under contract.",
+}
+
 NOT_APPLICABLE = {
     "C01": "equation between the states of seven actors across stop/restart; effects travel through Addr::send futures — no function-shaped contract can state it (DESIGN §6)",
     "C04": "crash points between file writes of several actors need a crash-Hoare logic over an external resource; neither Verus nor Kani models intermediate disk states (DESIGN §6)",
     "C06": "multi-process cluster, fault schedules and eventual convergence (liveness); async-raft internals are an external crate (DESIGN §6)",
-    "C07": "the three dispatch paths have no result and no &mut state; their behaviour is which message goes to which Addr, not expressible as a postcondition (DESIGN §6)",
     "C08": "snapshot installation across processes through actix future chains whose only effects are messages to other actors (DESIGN §6)",
     "C15": "convergence after quiescence across nodes: liveness over message schedules and node failures (DESIGN §6)",
 }
